@@ -155,6 +155,10 @@ package proxy
 //@ // around it, an attempt that failed because the body reader reported the limit (errors.Is ... ErrMaxBytesExceeded) ends
 //@ // the request with 413. tl(e, t) is 1 exactly when errors.Is(e, t); lastTooLarge is that for the last attempt's error.
 //@ ghost lastTooLarge int
+//@ ghost upRulesRun int
+//@ ghost downFnMade int
+//@ func mutateHeadersByRules
+//@ func createRespHeaderUpdateFn
 //@ spec tl(e error, t error) int
 //@ extern errors.Is
 //@   pure
@@ -167,6 +171,15 @@ package proxy
 //@   may_panic
 //@   requires r != nil && r.Header != nil && w != nil && lastBuffered == 0 && lastTooLarge == 0
 //@   at call (*ReverseProxy).ServeHTTP do lastTooLarge = tl(result, httpserver.ErrMaxBytesExceeded)
+//@   // C04 "exactly the configured header_upstream / header_downstream changes applied": a backend whose block has a rule
+//@   // set for a direction (plain rules and regex replacements live in separate maps; the plain map is non-nil whenever the
+//@   // block configured either kind) gets the rules run on every attempt, also when the plain map happens to be empty
+//@   at call invoke:(github.com/tmpim/casket/caskethttp/proxy.Upstream).Select do upRulesRun = 0
+//@   at call invoke:(github.com/tmpim/casket/caskethttp/proxy.Upstream).Select do downFnMade = 0
+//@   at call mutateHeadersByRules do upRulesRun = 1
+//@   at call createRespHeaderUpdateFn do downFnMade = 1
+//@   at call (*ReverseProxy).ServeHTTP before [upstream_header_rules_run_whenever_configured] host.UpstreamHeaders != nil ==> upRulesRun == 1
+//@   at call (*ReverseProxy).ServeHTTP before [downstream_header_rules_armed_whenever_configured] host.DownstreamHeaders != nil ==> downFnMade == 1
 //@   ensures [body_too_large_is_413] lastTooLarge == 1 ==> result0 == 413
 //@   at call newBufferedBody do lastBuffered = result0
 //@   at call invoke:(github.com/tmpim/casket/caskethttp/proxy.Upstream).Select#1 assert [retry_needs_rewindable_body] (upstream.GetHostCount() > 1 && upstream.GetTryDuration() != 0) ==> (outreq.Body == nil || (lastBuffered != 0 && outreq.Body == lastBuffered))
